@@ -36,7 +36,14 @@ for mp in $CP; do m=${mp%%|*}; p=${mp#*|}
   echo "EXISTING tests of $m $p with change:" >> "$L"
   runin "$m" go test -count=1 -vet=off -timeout 40m "$p" > "$L.t" 2>&1; rc=$?
   grep -E "^(ok|FAIL|--- FAIL|panic:)" "$L.t" | head -20 >> "$L"
-  [ $rc = 0 ] || ER=1
+  if [ $rc != 0 ]; then
+    # only tests of the pinned suite (BASELINE stable_pass) count; others fail in this sandbox regardless
+    bad=""
+    for t in $(grep -E "^--- FAIL: " "$L.t" | awk '{print $3}'); do
+      if jq -r '.stable_pass[]' /root/.vp/BASELINE.json | grep -q "::$t\$"; then bad="$bad $t"; else echo "  (ignored: $t is not in the pinned suite)" >> "$L"; fi
+    done
+    if grep -q "^panic:" "$L.t" || [ -n "$bad" ] || ! grep -q -E "^--- FAIL: " "$L.t"; then echo "  pinned tests failing:$bad" >> "$L"; ER=1; fi
+  fi
 done
 rm -f "$L.t"
 for f in $DEMOS; do mv "$f.aside" "$f"; done
